@@ -312,7 +312,10 @@ Definition diff (wanted srv : list file) : list delem :=
   ++ map DPublish (filter (fun w => negb (has_uri (f_uri w) srv)) wanted).
 
 (** One [ca_repo_sync]: list query, then (only if the delta is not empty) a delta query.
-    [lr]: the server's answer to the list query; [dr]: its answer to the delta query. *)
+    [lr]: the server's answer to the list query; [dr]: its answer to the delta query. On the local
+    shortcut ([send_rfc8181_and_validate_response]) every query, the list query included, is an error
+    unless the server knows the publisher under the calling CA's ID key; the error is recorded by
+    [send_rfc8181_list] / [send_rfc8181_delta] like any other. *)
 Definition repo_sync (st : state) (ca : str) (wanted : list file) (lr : reply (list file)) (dr : xres) : state * xres :=
   match lr with
   | RErr e => (set_repo_failure st ca e, XFail e)
@@ -344,7 +347,10 @@ Definition srv_apply (l : list file) (d : list delem) : option (list file) := fo
 (** ** Requests of a child, processed by the (local) parent (manager.rs:1048-1123).
     What happened to one message: *)
 Inductive msg :=
-| MRefused (e : N)        (* error before the request is processed (unknown child, unsuspend failed): nothing recorded *)
+| MRefused (e : N)        (* refused before the request is processed: nothing recorded. On the local shortcut
+                             ([send_rfc6492_and_validate_response]) the sender must be a child the parent (the TA
+                             included) knows, registered with the calling CA's ID key; then, inside
+                             [rfc6492_process_request], unknown child / failed unsuspend *)
 | MFailed (e : N)         (* processed, failed: [set_child_failure], the child sees the error *)
 | MOk                     (* processed: [set_child_success] *)
 | MOkLocalFail (e : N).   (* processed fine at the parent, but the child cannot use the reply *)
